@@ -65,22 +65,30 @@ Definition pw_all (sel : Z) (P00 P01 P10 P11 N00 N01 N10 N11 : mat) : list mat :
     pw_dfblock N00 rn0; pw_dfblock N01 rn0; pw_dfblock N10 rn1; pw_dfblock N11 rn1 ].
 
 (* ---- the legacy path (measures/pairwise_significance.py) ---------------------------------
-   works on the assembled (display-order) arrays; no abs under the square root; and its
-   "effective base" squares  slice.columns_base, which is the UNWEIGHTED base. *)
+   works on the assembled (display-order) arrays; no abs under the square root.  Without
+   squared weights the base is slice.columns_base (unweighted); with squared weights it is
+   the effective base built from the WEIGHTED margin slice.columns_margin:
+       columns_margin ** 2 / columns_squared_base
+   columns_base / columns_margin are vectors, or matrices when the rows are MR (a distinct
+   base per cell); the harness broadcasts both to matrices.  columns_squared_base is ALWAYS
+   a vector: the first row of the per-cell squared bases (_MarginSquaredBase), also for MR
+   rows - there the legacy base of row i >= 1 is W[i,j]^2 / SQ[0,j]. *)
 Definition legacy_tabs (p n p0 n0 : xq) : xq :=
   let d := xsub p p0 in
   let s := xadd (prop_var p n) (prop_var p0 n0) in
   if xltb s (Fin 0) then NaN else xdiv (xmul d (xabs d)) s.
 
-Definition legacy_base (unweighted_base : xq) (sq : option xq) : xq :=
+Definition legacy_base (weighted_margin unweighted_base : xq) (sq : option xq) : xq :=
   match sq with
-  | Some s => xdiv (xmul unweighted_base unweighted_base) s
+  | Some s => xdiv (xmul weighted_margin weighted_margin) s
   | None => unweighted_base
   end.
 
-(* props, unweighted bases: display matrices; sq: optional display vector; c: display column *)
-Definition legacy_t (props ubase : mat) (sq : option vec) (c : nat) : mat :=
-  let nb i j := legacy_base (mnth ubase i j) (option_map (fun v => vnth v j) sq) in
+(* props, weighted margins, unweighted bases: display matrices; sq: optional display vector;
+   c: display column *)
+Definition legacy_t (props wmargin ubase : mat) (sq : option vec) (c : nat) : mat :=
+  let nb i j := legacy_base (mnth wmargin i j) (mnth ubase i j)
+                            (option_map (fun v => vnth v j) sq) in
   tab2 (nrows props) (ncols props)
        (fun i j => legacy_tabs (mnth props i j) (nb i j) (mnth props i c) (nb i c)).
 
@@ -117,7 +125,8 @@ Definition welch_dfblock (sel : Z) (S N : mat) : mat :=
    and of both (ab);  cpa, cpb the column proportions of the row.
      df = Na + Nb - Nab
      t  = (cpb - cpa) / sqrt(1/df * (pa(1-pa) + pb(1-pb) + 2 pa pb - 2 pab)),  px = Sx/Nx
-   and the p-value uses df - 2 degrees of freedom.  For a = b the code returns t = 0 AND p = 0. *)
+   and the p-value uses df - 2 degrees of freedom.  For a = b the code returns t = 0 AND p = 0
+   (the index sets exclude the own position explicitly, see indices_row). *)
 Definition ov_df (Na Nb Nab : xq) : xq := xsub (xadd Na Nb) Nab.
 
 Definition ov_se2 (Sa Sb Sab Na Nb Nab : xq) : xq :=
@@ -156,25 +165,30 @@ Definition ov_p_self : xq := Fin 0.
 
 (* ---- index sets ---------------------------------------------------------------------------
    `significance = p_vals < alpha; if only_larger: significance &= t_stats < 0;
-    tuple(np.where(sig_row)[0])`  for each row of the (display-order) matrices that belong to
-   display column c; the result is the entry (row, c) of pairwise_indices. *)
+    significance[:, col_idx] = False;  tuple(np.where(sig_row)[0])`
+   for each row of the (display-order) matrices that belong to display column `own` (= col_idx,
+   the display position of the selected column, which is never reported); the result is the
+   entry (row, own) of pairwise_indices. *)
 Definition sig_cell (alpha : Q) (only_larger : bool) (p t : xq) : bool :=
   xltb p (Fin alpha) && (negb only_larger || xltb t (Fin 0)).
 
-Definition indices_row (alpha : Q) (only_larger : bool) (pv tv : vec) : list nat :=
-  filter (fun j => sig_cell alpha only_larger (vnth pv j) (vnth tv j)) (seq 0 (length pv)).
+Definition indices_row (alpha : Q) (only_larger : bool) (own : nat) (pv tv : vec) : list nat :=
+  filter (fun j => negb (j =? own) && sig_cell alpha only_larger (vnth pv j) (vnth tv j))
+         (seq 0 (length pv)).
 
-(* all rows of the matrices of one selected display column *)
-Definition indices_col (alpha : Q) (only_larger : bool) (P T : mat) : list (list nat) :=
-  tab (nrows P) (fun i => indices_row alpha only_larger (mrow P i) (mrow T i)).
+(* all rows of the matrices of the selected display column `own` *)
+Definition indices_col (alpha : Q) (only_larger : bool) (own : nat) (P T : mat) : list (list nat) :=
+  tab (nrows P) (fun i => indices_row alpha only_larger own (mrow P i) (mrow T i)).
 
 (* Display composition: [Pm s], [Tm s] are the payload-order p / t matrices for selected
    payload column s; [ord] lists the payload column shown at each display position (after
-   reordering, hiding, insertion).  The set at (row, display column dc): *)
+   reordering, hiding, insertion).  The set at (row, display column dc) - the own position dc
+   is excluded: *)
 Definition display_set (alpha : Q) (only_larger : bool) (Pm Tm : nat -> mat)
            (ord : list nat) (row dc : nat) : list nat :=
   let s := nth dc ord 0 in
-  filter (fun dj => sig_cell alpha only_larger
+  filter (fun dj => negb (dj =? dc) &&
+                    sig_cell alpha only_larger
                              (mnth (Pm s) row (nth dj ord 0)) (mnth (Tm s) row (nth dj ord 0)))
          (seq 0 (length ord)).
 
